@@ -32,6 +32,16 @@ Theorem C02_resolve_same_recording : forall r fs e,
 Proof. exact resolve_same_recording. Qed.
 Print Assumptions C02_resolve_same_recording.
 
+(* hypotheses satisfiable: a folder holding x.cbin + x.ch + x.meta of recording 1 (no x.bin), opened through x.meta *)
+Example resolve_hyp_satisfiable :
+  consistent 1 fs_cbin_only /\
+  present (fs_cbin_only PBin) || present (fs_cbin_only PCbin) = true /\
+  present (fs_cbin_only (entry_path EMeta)) = true /\ present (fs_cbin_only PMeta) = true /\
+  resolve (present (fs_cbin_only PBin)) (present (fs_cbin_only PCbin)) EMeta = Some DCbin.
+Proof.
+  unfold consistent, holds. cbn. repeat split; try discriminate; intros _; exists 1; auto.
+Qed.
+
 Example resolve_meta_only_cbin :
   resolve false true EMeta = Some DCbin /\ open_outcome false true true true EMeta = OpenedCbin.
 Proof. vm_compute. auto. Qed.
@@ -85,6 +95,12 @@ Theorem C02_final_names_never_partial : forall r c m B keep chk fs0 fault,
 Proof. exact final_names_never_partial. Qed.
 Print Assumptions C02_final_names_never_partial.
 
+Example final_names_hyp_satisfiable :
+  fs_bin_stale PBin = Complete (Orig 1) /\
+  (forall j, fs_bin_stale PCbin <> Partial j) /\ (forall j, fs_bin_stale PCh <> Partial j) /\
+  final_fs (exec (compress_steps 1 1 2 1 true true) fs_bin_stale (Some 3%nat)) PCbinTmp = Partial 1.
+Proof. repeat split; try (intros j; discriminate); vm_compute; reflexivity. Qed.
+
 (* Order of publication: x.ch_tmp -> x.ch only with complete stream and header
    (source still there); x.cbin_tmp -> x.cbin next, the complete header already
    under its final name; x.bin unlinked only after both, no temporary left.  *)
@@ -106,6 +122,14 @@ Proof.
   rewrite Forall_forall in H. exact (H _ Hin).
 Qed.
 Print Assumptions C02_compress_inplace_order.
+
+(* the trace of a run really contains the three kinds of steps the theorem speaks about *)
+Example inplace_order_steps_occur :
+  let tr := map snd (final_tr (exec (compress_steps 1 1 2 1 false true) fs_bin_only None)) in
+  existsb (fun s => match s with SRename PChTmp PCh => true | _ => false end) tr = true /\
+  existsb (fun s => match s with SRename PCbinTmp PCbin => true | _ => false end) tr = true /\
+  existsb (fun s => match s with SUnlink PBin => true | _ => false end) tr = true.
+Proof. vm_compute. auto. Qed.
 
 Example compress_hyp_satisfiable :
   let res := exec (compress_steps 1 1 3 2 false true) fs_bin_stale None in
@@ -143,6 +167,13 @@ Proof.
   intros x s Hin. rewrite Forall_forall in D5. exact (D5 _ Hin).
 Qed.
 Print Assumptions C02_decompress_file_order.
+
+Example decompress_hyp_satisfiable :
+  out_ok PBin = true /\ fs_cbin_only PCbin = Complete (Comp 1 1) /\ fs_cbin_only PCh = Complete (Hdr 1 1) /\
+  let res := exec (decompress_steps 1 1 3 2 PBin false true true) fs_cbin_only None in
+  final_oc res = Done /\ final_fs res PBin = Complete (Orig 1) /\ final_fs res PCbin = Absent /\
+  final_fs res PCh = Absent /\ length (final_tr res) = 14%nat.
+Proof. vm_compute. auto 8. Qed.
 
 (* ---------------------------------------------------------------------- *)
 (* decompress_to_scratch (scratch_dir given or None).  The compressed pair is
@@ -249,6 +280,10 @@ Theorem C02_chunks_partition : forall n size, 1 <= n -> 1 <= size ->
 Proof. exact chunk_bounds_spec. Qed.
 Print Assumptions C02_chunks_partition.
 
+Example chunks_partition_example :
+  chunk_bounds 11 4 = [0; 4; 8; 11] /\ n_chunks 11 4 = 3 /\ chunk_bounds 8 4 = [0; 4; 8] /\ chunk_bounds 1 7 = [0; 1].
+Proof. vm_compute. auto. Qed.
+
 (* ... and chunk k of the encoder's split is rows[k*size : k*size + size] *)
 Theorem C02_chunk_is_slice : forall size k (rows : list (list Z)),
   (0 < size)%nat -> (k * size < length rows)%nat ->
@@ -258,6 +293,10 @@ Proof.
   apply split_rows_nth; [exact Hs|apply Nat.le_refl|exact Hk].
 Qed.
 Print Assumptions C02_chunk_is_slice.
+
+Example chunk_is_slice_example :
+  nth 2 (file_chunks 2 [[1]; [2]; [3]; [4]; [5]]) [] = [[5]] /\ (2 * 2 < length [[1]; [2]; [3]; [4]; [5]])%nat.
+Proof. vm_compute. split; [reflexivity|lia]. Qed.
 
 (* ---------------------------------------------------------------------- *)
 (* Reading back through the .ch table.  The encoder writes the chunks one
@@ -341,6 +380,16 @@ Proof.
 Qed.
 Print Assumptions C02_object_shape_invariant.
 
+Example object_sequence_example :
+  let tr := r_run w_ex (r_start w_ex DCbin 11)
+              [ROpen; RScratch true; RDecompress false; RScratch true; RCompress false; ROpen; RCompress true] in
+  map (fun x => (o_file (s_obj (fst x)), o_nbytes (s_obj (fst x)), o_raw (s_obj (fst x)), snd x)) tr =
+  [(DCbin, 93, RawMtscomp, false); (DCbin, 93, RawMtscomp, false); (DBin, 66, RawMemmap, false);
+   (DBin, 66, RawMemmap, false); (DCbin, 66, RawMemmap, false); (DCbin, 66, RawMtscomp, false);
+   (DCbin, 66, RawMtscomp, true)] /\
+  (1 <= w_n w_ex /\ 1 <= w_nc w_ex /\ w_nch w_ex = w_n w_ex).
+Proof. vm_compute. repeat split; congruence. Qed.
+
 (* In any such state: the only calls that raise are the is_mtscomp guards
    (compress_file on an object pointing at x.cbin; decompress_file on one
    pointing at x.bin; decompress_to_scratch(dir) on one pointing at x.bin when
@@ -389,6 +438,14 @@ Proof.
 Qed.
 Print Assumptions C02_object_warning_iff_meta_wrong.
 
+(* meta file claiming 9 samples for an 11-sample recording, ignore_warnings off / on *)
+Example object_open_wrong_meta :
+  option_map (fun o => (o_ns o, o_warn o)) (r_open w_ex (r_init w_ex DCbin 9)) = Some (11, true) /\
+  option_map (fun o => (o_ns o, o_warn o)) (r_open w_ex (r_init w_ex DBin 14)) = Some (11, true) /\
+  option_map (fun o => (o_ns o, o_warn o)) (r_open (mkW 11 3 93 11 true) (r_init (mkW 11 3 93 11 true) DCbin 9))
+    = Some (11, false).
+Proof. vm_compute. auto. Qed.
+
 (* Transparency of the SHAPE when the meta file is wrong about the length
    (interrupted acquisition, chopped file), for either ignore_warnings:
    a freshly constructed Reader — on x.bin or on x.cbin — exposes the true
@@ -423,6 +480,17 @@ Theorem C02_cbin_shape_eq_bin_shape : forall n nc t fs ns0 (iw_cbin iw_bin : boo
   reader_shape iw_bin false n nc (Some t) fs = Some (n, nc).
 Proof. exact cbin_shape_eq_bin_shape. Qed.
 Print Assumptions C02_cbin_shape_eq_bin_shape.
+
+(* hypotheses satisfiable (C11's examples): fs = 30000, a meta file claiming 22/30000 + 1.8324 s = 54994 samples
+   for a 22-sample recording of 385 channels; both readers expose (22, 385) *)
+Example cbin_shape_hyp_satisfiable :
+  IBL.C11.Model.ns_meta (Some (IBL.C11.Model.of_me 8255698596920435 (-52))) (IBL.C11.Model.of_me 30000 0)
+    = IBL.C11.Model.NsOk 54994 /\
+  reader_shape true true 22 385 (Some (IBL.C11.Model.of_me 8255698596920435 (-52))) (IBL.C11.Model.of_me 30000 0)
+    = Some (22, 385) /\
+  reader_shape false false 22 385 (Some (IBL.C11.Model.of_me 8255698596920435 (-52))) (IBL.C11.Model.of_me 30000 0)
+    = Some (22, 385).
+Proof. vm_compute. auto. Qed.
 
 (* What is still not refreshed: compress_file(keep_original=False) switches
    file_bin to x.cbin and keeps the size of x.bin in nbytes.  While the object
